@@ -17,7 +17,11 @@ Three kinds of comparison are made on every case:
      * dec2dms / dec2hms: output matches the format, minutes < 60, seconds < 60, hours < 24,
        degrees <= 90 (and 90 only with 00:00.00), 'XX:XX:XX.XX' for non-finite input;
        dec2dec(dec2dms(x)) and ra2dec(dec2hms(x)) (mod 360) are within half a unit of the last printed
-       digit of x.
+       digit of x; every documented spelling of the printed string (blanks or tabs for the colons, leading
+       and trailing blanks/tabs, right-justified cell) parses to the identical number;
+     * dec2dec / ra2dec on free-form field strings (sign '+', '-' or none, '-0'/'-00' degree or hour fields,
+       2 or 3 fields, any of ':' ' ' tab as separator, leading/trailing white space) return the exact
+       sexagesimal value, the sign being that of the first field's first character.
  (C) Correspondence with the Lean model run by the driver at Float (failures are kind 'corr'):
      Gen.C17.{havA,gcdNear,gcdFar,bear,translateRa,translateDec,dec2decNeg,ra2decScale,dmsD,…} are the
      definitions regenerated from the source under test; this is the translator's validation.
@@ -42,7 +46,8 @@ RULE = ("sphere cases are coordinate pairs / triples / (point, r, theta) drawn f
         "triples); a sphere case is non-trivial when its regime is not 'random' or its separation is < 1e-3 or > 179 deg; "
         "sexagesimal cases are angles; non-trivial = within 1e-6 deg of a value where a printed field carries "
         "(seconds/minutes/degrees/hours roll over) or negative/wrapping RA or a non-finite value or a malformed "
-        "string; distinct by (function, exact input)")
+        "string; parser strings are non-trivial when they carry a sign, a zero degrees/hours field or leading white "
+        "space; distinct by (function, exact input)")
 ASSUMPTIONS = [
     "IEEE-754 rounding inside numpy's sin/cos/arcsin/arctan2/sqrt is not modelled: theorems are over the reals; the "
     "1e-9 deg agreement clause is decided by sampling against a 50-digit reference",
@@ -504,6 +509,91 @@ def judge_translate(ctx, items, model=True):
 
 
 # ---------------------------------------------------------------------------------------------
+# spellings of a sexagesimal string: the parser documents "[+- ]dd:mm[:ss.s]", colons replaceable
+# by white space; a right-justified table cell or a tab in front must not change the value
+# ---------------------------------------------------------------------------------------------
+def hexs(t):
+    return t.encode('ascii').hex() or '-'
+
+
+def spellings(rng, s):
+    """(label, string) variants of the printed string s that must parse to the same number"""
+    pads = [' ', '  ', '\t', ' \t ', '      ']
+    out = [('blanks-for-colons', s.replace(':', ' ')),
+           ('right-justified', '{0:>14s}'.format(s)),
+           ('right-justified+blanks', '{0:>16s}'.format(s.replace(':', ' '))),
+           ('leading-tab', '\t' + s),
+           ('trailing-blanks', s + rng.choice(pads)),
+           ('padded-both+tabs', rng.choice(pads) + s.replace(':', rng.choice([' ', '\t', '  '])) + rng.choice(pads) + '\n')]
+    return out
+
+
+def gen_parse_strings(rng, n):
+    """free-form field strings: (string, exact value in degrees as Fraction, tags) for dec2dec"""
+    out = []
+    for _ in range(n):
+        sign = rng.choice(['', '', '+', '-', '-', '-'])
+        deg = rng.choice([0, 0, 0, rng.randint(0, 9), rng.randint(0, 99), rng.randint(0, 359)])
+        degtxt = rng.choice(['%d', '%02d', '%03d']) % deg
+        mm = rng.choice([0, rng.randint(0, 59)])
+        mtxt = rng.choice(['%d', '%02d']) % mm
+        nf = rng.choice([2, 3, 3, 3])
+        fields = [sign + degtxt, mtxt]
+        val = Fraction(deg) + Fraction(mm, 60)
+        if nf == 3:
+            dec = rng.choice([0, 1, 2, 3])
+            sec = rng.randint(0, 60 * 10 ** dec - 1)
+            stxt = ('%0*d' % (dec + 2, sec))
+            stxt = stxt[:-dec] + '.' + stxt[-dec:] if dec else rng.choice([stxt, stxt + '.'])
+            fields.append(stxt)
+            val += Fraction(sec, 3600 * 10 ** dec)
+        if sign == '-':
+            val = -val
+        sep = rng.choice([':', ':', ' ', '\t', '  ', ' : '])
+        pre = rng.choice(['', '', ' ', '   ', '\t', ' \t', '          '])
+        post = rng.choice(['', '', ' ', '\n', '\t ', '   '])
+        t = pre + sep.join(fields) + post
+        tags = dict(sign=sign or 'none', zero_degrees=(deg == 0), leading_ws=bool(pre), trailing_ws=bool(post),
+                    sep=repr(sep), fields=nf)
+        out.append((t, val, tags))
+    return out
+
+
+def judge_parse_strings(ctx, items):
+    """Spec: dec2dec / ra2dec return the exact sexagesimal value (sign from the first field's first
+    character); correspondence with the Lean string-level parser model on the raw characters"""
+    at = _at()
+    lines = []
+    for (t, _, _) in items:
+        lines += ["parsex dec " + hexs(t), "parsex ra " + hexs(t)]
+    outs = ctx.driver.batch(lines) if ctx.driver_ok else None
+    for k, (t, val, tags) in enumerate(items):
+        for j, (name, f, scale) in enumerate((('dec2dec', at.dec2dec, 1), ('ra2dec', at.ra2dec, 15))):
+            case = dict(kind='parse-string', func=name, s=t, exact=float(val * scale))
+            try:
+                got = float(f(t))
+            except Exception as e:
+                ctx.fail('spec', case, f"{name}({t!r}) raised {type(e).__name__}: {e} on a well-formed string",
+                         dict(site=name, what='parse-raises'))
+                ctx.case(case)
+                continue
+            case['got'] = got
+            if abs(Fraction(got) - val * scale) > Fraction(1, 10 ** 10):
+                ctx.fail('spec', case, f"{name}({t!r}) = {got!r}, the string denotes {float(val * scale)!r}",
+                         dict(site=name, what='parse-value', sign=tags['sign'], zero_degrees=tags['zero_degrees'],
+                              leading_ws=tags['leading_ws']))
+            if outs is not None:
+                w = outs[2 * k + j].split()
+                if w[0] != 'ok' or not common.close(got, common.h2f(w[1]), rel=4e-16):
+                    ctx.fail('corr', case, f"{name}({t!r}): implementation {got!r}, model {outs[2 * k + j]!r}",
+                             dict(site=name, what='parse-model'))
+            ctx.count('parse-string:sign=' + tags['sign'] + (',zero-deg' if tags['zero_degrees'] else '') +
+                      (',lead-ws' if tags['leading_ws'] else ''))
+            ctx.case(case, nontrivial_key=('parse-string', name, t) if (tags['leading_ws'] or tags['zero_degrees'] or tags['sign'] != 'none') else None,
+                     sample_every=499)
+
+
+# ---------------------------------------------------------------------------------------------
 # sexagesimal: judges
 # ---------------------------------------------------------------------------------------------
 RE_DMS = re.compile(r'^([+-])(\d\d):(\d\d):(\d\d)\.(\d\d)$')
@@ -534,6 +624,7 @@ def judge_sexa(ctx, kind, xs, model=True):
     fmt = at.dec2dms if kind == 'dms' else at.dec2hms
     parse = at.dec2dec if kind == 'dms' else at.ra2dec
     site = 'dec2dms' if kind == 'dms' else 'dec2hms'
+    psite = 'dec2dec' if kind == 'dms' else 'ra2dec'
     scale = 360000 if kind == 'dms' else 24000
     half = 0.5 / scale
     lines, meta = [], []
@@ -592,6 +683,25 @@ def judge_sexa(ctx, kind, xs, model=True):
         if abs(d) > Fraction(half) * (1 + Fraction(1, 10 ** 6)) and not bad:
             ctx.fail('spec', case, f"{site}({x!r}) = {s!r} is {float(abs(d)):.3e} deg away from the input "
                                    f"(> half a unit of the last digit = {half:.3e})", dict(site=site, what='inverse'))
+        # every documented spelling of the printed string parses to the same number
+        if back is not None:
+            sp = spellings(ctx.rng, s)
+            for label, t in (sp if (nt or len(meta) % 7 == 0) else sp[:3]):
+                try:
+                    bt = float(parse(t))
+                except Exception as e:
+                    bt = None
+                    ctx.fail('spec', dict(case, spelling=t), f"parser raised {type(e).__name__} on {t!r} ({label} of {s!r})",
+                             dict(site=psite, what='whitespace-invariance', spelling=label))
+                if bt is not None and bt != back:
+                    ctx.fail('spec', dict(case, spelling=t),
+                             f"parser returns {bt!r} for {t!r} but {back!r} for {s!r} ({label}); the string was formatted from {x!r}",
+                             dict(site=psite, what='whitespace-invariance', spelling=label,
+                                  negative_zero_degrees=(sign == '-' and top == 0)))
+                ctx.count(kind + ':spelling:' + label)
+            spell_line = "parsex %s %s" % ('dec' if kind == 'dms' else 'ra', hexs(sp[len(meta) % len(sp)][1]))
+        else:
+            spell_line = None
         # correspondence with the integer model
         if kind == 'dms':
             n, tie = round_exact(abs(Fraction(x)) * scale)
@@ -606,13 +716,17 @@ def judge_sexa(ctx, kind, xs, model=True):
         if line:
             lines.append(line)
             lines.append(f"parse {'dec' if kind == 'dms' else 'ra'} {s}")
+            lines.append(spell_line or f"parse {'dec' if kind == 'dms' else 'ra'} {s}")
         ctx.count(kind + (':carry' if nt else ':plain'))
     outs = ctx.driver.batch(lines) if (model and ctx.driver_ok and lines) else None
     j = 0
     for case, s, line, nt in meta:
         if line and outs is not None:
-            ms, mp = outs[j], outs[j + 1]
-            j += 2
+            ms, mp, msp = outs[j], outs[j + 1], outs[j + 2]
+            j += 3
+            if msp != mp:
+                ctx.fail('corr', case, f"Lean parser model: {mp!r} for {s!r} but {msp!r} for a padded spelling of it",
+                         dict(site=site, what='parse-model-spelling'))
             if ms != s:
                 ctx.fail('corr', case, f"{site}({case['x']!r}) = {s!r} but the integer model prints {ms!r} ({line})",
                          dict(site=site, what='model'))
@@ -711,6 +825,12 @@ CORPUS_TRANSLATE = [(10.0, -8.0, 82.0, 180.0), (10.0, 82.0, 172.0, 180.0), (0.0,
                     (33.0, -90.0, 180.0, 10.0), (10.0, 20.0, 0.0, 123.0), (10.0, 20.0, 180.0, 123.0), (200.0, 60.0, 30.0, 0.0)]
 
 
+CORPUS_STRINGS = [('  -00:07:24.42', Fraction(-12345, 100000) + Fraction(0), dict(sign='-', zero_degrees=True, leading_ws=True, trailing_ws=False, sep="':'", fields=3)),
+                  ('\t-0 30', Fraction(-1, 2), dict(sign='-', zero_degrees=True, leading_ws=True, trailing_ws=False, sep="' '", fields=2)),
+                  ('   -00 00 36.00  ', Fraction(-1, 100), dict(sign='-', zero_degrees=True, leading_ws=True, trailing_ws=True, sep="' '", fields=3)),
+                  (' +00:30:00', Fraction(1, 2), dict(sign='+', zero_degrees=True, leading_ws=True, trailing_ws=False, sep="':'", fields=3))]
+
+
 def run_corpus(ctx):
     import glob
     import json
@@ -719,6 +839,7 @@ def run_corpus(ctx):
     judge_translate(ctx, CORPUS_TRANSLATE)
     judge_sexa(ctx, 'dms', CORPUS_DMS)
     judge_sexa(ctx, 'hms', CORPUS_HMS)
+    judge_parse_strings(ctx, CORPUS_STRINGS)
     for fn in sorted(glob.glob(os.path.join(common.VERIF, 'corpus', 'C17', '*.json'))):
         rec = json.load(open(fn))
         replay(ctx, rec)
@@ -729,8 +850,8 @@ def run_corpus(ctx):
 # ---------------------------------------------------------------------------------------------
 def sizes(ctx, wide=False):
     if ctx.quick and not wide:
-        return dict(pairs=1500, triples=400, translate=1200, sexa=4000)
-    return dict(pairs=40000, triples=12000, translate=40000, sexa=200000)
+        return dict(pairs=1500, triples=400, translate=1200, sexa=4000, strings=2500)
+    return dict(pairs=40000, triples=12000, translate=40000, sexa=200000, strings=60000)
 
 
 def run(ctx):
@@ -745,6 +866,7 @@ def run(ctx):
     judge_sexa(ctx, 'dms', xs_d)
     judge_sexa(ctx, 'hms', xs_h)
     judge_parser(ctx, MALFORMED)
+    judge_parse_strings(ctx, gen_parse_strings(rng, sz['strings']))
     judge_pinned_model(ctx, xs_d[: sz['sexa'] // 2], xs_h[: sz['sexa'] // 2])
 
 
@@ -758,7 +880,8 @@ def search(ctx):
     ctx.driver_ok = False
     try:
         sz = sizes(ctx, wide=True)
-        for step in (lambda: judge_sexa(ctx, 'dms', gen_dms(rng, sz['sexa']), model=False),
+        for step in (lambda: judge_parse_strings(ctx, gen_parse_strings(rng, sz['strings'])),
+                     lambda: judge_sexa(ctx, 'dms', gen_dms(rng, sz['sexa']), model=False),
                      lambda: judge_sexa(ctx, 'hms', gen_hms(rng, sz['sexa']), model=False),
                      lambda: judge_pairs(ctx, gen_pairs(rng, sz['pairs']), model=False),
                      lambda: judge_translate(ctx, gen_translate(rng, sz['translate']), model=False),
@@ -782,6 +905,8 @@ def replay(ctx, rec):
         judge_translate(ctx, [(c['ra'], c['dec'], c['r'], c['theta'])])
     elif k in ('dms', 'hms'):
         judge_sexa(ctx, k, [float(c['x'])])
+    elif k == 'parse-string':
+        judge_parse_strings(ctx, [(c['s'], Fraction(c['exact']) / (15 if c.get('func') == 'ra2dec' else 1), dict(sign='-' if c['s'].strip().startswith('-') else 'none', zero_degrees=False, leading_ws=c['s'][:1].isspace(), trailing_ws=False, sep='', fields=3))])
     elif k == 'parse':
         judge_parser(ctx, [c['s']])
     elif k == 'pinned-model':
